@@ -2,6 +2,7 @@ package h
 
 import (
 	"bytes"
+	"context"
 	"fmt"
 	"time"
 
@@ -40,6 +41,7 @@ type c08cfg struct {
 	gapMax   int
 	massKill bool
 	lazyQ    int
+	dialMs   int // dials succeed, but may take this long (queries queue on the dialing connection)
 	w        *W1
 	attempts map[int][]attempt // call -> writes
 	opener   map[int]int       // conn -> call index that opened it (-1 unknown)
@@ -76,6 +78,8 @@ func c08Setup(rc *RunCtx) simrt.Config {
 		c.lazyQ = pick(0, 0, 1, 2)
 	}
 	rc.Cfg["lazy_queue"] = c.lazyQ
+	c.dialMs = pick(0, 0, 1, 20)
+	rc.Cfg["dial_ms"] = c.dialMs
 	rc.Net.ChunkMode = r.Choose(3)
 	rc.Cfg["strategy"] = sname
 	rc.Cfg["kind"] = c.kind.String()
@@ -129,7 +133,14 @@ func c08Main(rc *RunCtx) {
 		}
 		return a
 	}
-	rc.Net.Handle("tcp", srvAddr, w.Serve(ServerOpts{Plan: plan}))
+	ep := rc.Net.Handle("tcp", srvAddr, w.Serve(ServerOpts{Plan: plan}))
+	if c.dialMs > 0 {
+		ep.DialFault = func(ctx context.Context, nth int) error {
+			simrt.Sleep(0, time.Duration(1+simrt.Choose(c.dialMs))*time.Millisecond)
+			simrt.Fault("slow_dial")
+			return nil
+		}
+	}
 	rc.Net.OnDial = func(cc *simnet.Conn) {
 		// who opened this connection? walk the task ancestry up to a caller task
 		c.opener[cc.ID] = -1
@@ -307,6 +318,13 @@ func c08Post(rc *RunCtx, res simrt.Result) {
 	}
 	for _, x := range c.w.Calls {
 		if x.Started && !x.Done {
+			if rc.Viol == nil && (res.End == simrt.EndStuck || res.End == simrt.EndDeadlock) {
+				// The server answers or kills connections, every dial succeeds, nothing
+				// is silent forever: a call that never returns was neither retried to
+				// success nor reported as failed.
+				rc.Fail("call_never_returned", "call %d (%s) started at t=%v never returned although fresh connections work (run end: %s %s)", x.Idx, x.QName, x.StartAt, res.End, leakSummary(res))
+				return
+			}
 			rc.Inconcl = "call did not return"
 		}
 	}
